@@ -279,4 +279,17 @@ PROPS = {
         "rule": "non-trivial: a path containing '..' or rooted at '/', or a main script below the root, or a consistency/cycle case. Distinct = distinct case JSON.",
         "assumptions": COMMON_ASSUMPTIONS,
     },
+    "C15": {
+        "level": "exploration",
+        "technique": "property-based testing (rapid), differential: generated module layouts are evaluated from source and as a bundle built by bundle.BundledScripts; values compared, bundle runs watched by filesystems that must stay untouched",
+        "level_text": "Generated-input search: layouts on an in-memory filesystem with or without go.mod (several module names), up to four directories incl. names with spaces and "
+                      "non-ASCII letters, an optional second module nested in the first, 1-5 scripts forming an import DAG (diamonds included) through relative ./ and module-rooted / imports, "
+                      "with and without the .arrai suffix, JSON/YAML/text data files through implicit and explicit decoders, the main file at any position, occasionally a missing import. "
+                      "Oracle: source evaluation and EvaluateBundleCtx on the archive give Equal values with the same printed form, or both fail; bundling may not fail when the source evaluates; "
+                      "the bundle is run from three working directories with recording source/runtime filesystems that must see no call; every file the source run opened has an entry in the archive.",
+        "level_note": "Trusted: afero MemMapFs, the recording filesystems, rapid. Module (go mod download) and URL imports are out of reach offline and excluded.",
+        "tests": [{"name": "TestC15", "quick": 600, "thorough": 10000}],
+        "rule": "non-trivial: at least two directories and two import forms, or a data-file import, or no go.mod. Distinct = distinct case JSON.",
+        "assumptions": COMMON_ASSUMPTIONS,
+    },
 }
